@@ -537,11 +537,18 @@ func (e *Engine) solveFile(o *Obl, file string) {
 	}
 	if e.tier == "thorough" && !vac {
 		var wg sync.WaitGroup
-		names := []string{"z3-new", "z3", "cvc5", "z3-new-a2", "z3-new-eager", "cvc5-enum"}
+		// thorough: every solver configuration is asked and all answers are collected (a sat / unsat disagreement is
+		// a failure), each with a moderate timeout; if none decides, the obligation goes through the racing portfolio
+		// below with the tier's long timeout
+		names := []string{"z3-new", "z3", "cvc5", "z3-new-a2", "z3-new-eager", "z3-new-em", "cvc5-enum"}
 		rs := make([]solverRes, len(names))
+		agreeT := e.timeoutS / 3
+		if agreeT < 10 {
+			agreeT = 10
+		}
 		for i, s := range names {
 			wg.Add(1)
-			go func(i int, s string) { defer wg.Done(); rs[i] = runSolver(s, file, e.timeoutS) }(i, s)
+			go func(i int, s string) { defer wg.Done(); rs[i] = runSolver(s, file, agreeT) }(i, s)
 		}
 		wg.Wait()
 		var sats, unsats, all []string
@@ -561,10 +568,10 @@ func (e *Engine) solveFile(o *Obl, file string) {
 			finish("failed", strings.Join(sats, "+"), "sat")
 		case len(unsats) > 0:
 			finish("discharged", strings.Join(unsats, "+"), "")
-		default:
-			finish("unknown", "", strings.Join(all, " "))
 		}
-		return
+		if len(sats)+len(unsats) > 0 {
+			return
+		}
 	}
 	r := runSolver("z3-new", file, 4)
 	if decide(r) {
